@@ -40,6 +40,24 @@ func runSolverCtx(parent context.Context, s solverSpec, file string, timeoutS in
 	ctx, cancel := context.WithTimeout(parent, time.Duration(timeoutS+2)*time.Second)
 	defer cancel()
 	argv := s.argv(file, timeoutS)
+	// GOVC_SEED=n perturbs every solver's random seed (stability sweeps: an obligation that is only discharged for
+	// one seed is a false alarm waiting to happen)
+	if sd := os.Getenv("GOVC_SEED"); sd != "" && sd != "0" {
+		switch argv[0] {
+		case "z3", "z3-new":
+			hasSeed := false
+			for _, a := range argv {
+				if strings.HasPrefix(a, "smt.random_seed=") {
+					hasSeed = true
+				}
+			}
+			if !hasSeed {
+				argv = append(argv[:len(argv)-1:len(argv)-1], "smt.random_seed="+sd, "sat.random_seed="+sd, argv[len(argv)-1])
+			}
+		case "cvc5":
+			argv = append(argv[:len(argv)-1:len(argv)-1], "--seed="+sd, argv[len(argv)-1])
+		}
+	}
 	cmd := exec.CommandContext(ctx, argv[0], argv[1:]...)
 	var out bytes.Buffer
 	cmd.Stdout = &out
@@ -249,7 +267,7 @@ func solveOne(u *UnitResult, o *OblResult, cfg solveConfig) (disagreement string
 		// Staged race (keeps the machine usable when several checks run at once): z3-new and its E-matching-only
 		// variant start at once and decide most obligations in well under a second; the other racers join only if
 		// nothing has answered by then. Every racer still gets the full time limit from its own start.
-		ch := make(chan res, len(solvers)+4)
+		ch := make(chan res, len(solvers)+8)
 		chSend = func(c chan res, r res) { c <- r }
 		stage := func(d time.Duration, name string, relaxed bool, run func() solveOut) {
 			go func() {
@@ -307,6 +325,23 @@ func solveOne(u *UnitResult, o *OblResult, cfg solveConfig) (disagreement string
 			}
 			return r
 		})
+		// seed-diversified instances of the main solver (only their 'unsat' is used): quantifier-heavy goals are often
+		// decided for some random seeds and not for others; a small portfolio makes the verdict robust against the
+		// perturbations (renumbered symbols, reordered assertions) that harmless code edits cause
+		for _, sd := range []int{1, 2} {
+			sd := sd
+			n++
+			stage(stageDelay(2), fmt.Sprintf("z3-new(seed%d)", sd), false, func() solveOut {
+				sp := solverSpec{fmt.Sprintf("z3-new(seed%d)", sd), func(f string, t int) []string {
+					return []string{"z3-new", fmt.Sprintf("-T:%d", t), fmt.Sprintf("smt.random_seed=%d", sd), fmt.Sprintf("sat.random_seed=%d", sd), f}
+				}}
+				r := runSolverCtx(ctx, sp, file, cfg.timeoutS)
+				if r.verdict != "unsat" {
+					r.verdict = "unknown"
+				}
+				return r
+			})
+		}
 		rq := u.ctx.QueryX(o.Prefix, o.Goal, true, true)
 		if rq != q {
 			rfile := strings.TrimSuffix(file, ".smt2") + ".relaxed.smt2"
